@@ -546,6 +546,24 @@ def conv_pairs_leg(report):
                    {"key": ("convpair", sname, dname), "kind": "convert_pair", "src": sname, "dst": dname}, check_closure=True)
 
 
+def _enum_value_ids(a, out=None, depth=0):
+    """containers that are the VALUE of an enum member found in the argument: the exact-value representation of a member is its
+    own value object (the user's object, not a container adaptix builds) - passed as is in both directions"""
+    import enum
+    out = set() if out is None else out
+    if depth > 6:
+        return out
+    if isinstance(a, enum.Enum):
+        out.update(containers(a.value))
+    elif isinstance(a, (list, tuple, set, frozenset)):
+        for x in a:
+            _enum_value_ids(x, out, depth + 1)
+    elif isinstance(a, dict):
+        for x in a.values():
+            _enum_value_ids(x, out, depth + 1)
+    return out
+
+
 def variants_leg(report):
     """loaders and dumpers of non-default providers, generic and recursive models (the C01 extra programs)"""
     from checks import c01_extra
@@ -561,11 +579,11 @@ def variants_leg(report):
                     continue
                 base = {"kind": "variant", "leg": leg, "name": name, "mode": list(mode)}
                 purity(report, {"check": "C20.variant_dump", "leg": leg}, f"dump {name} of {value!r} [{mode_name(mode)}]"[:200], dumper,
-                       lambda value=value: copy.deepcopy(value), lambda a: set(),
-                       {**base, "key": ("vd", name, repr(value)[:60], mode)})
+                       lambda value=value: copy.deepcopy(value), _enum_value_ids,
+                       {**base, "key": ("vd", name, repr(value)[:60], mode)}, check_closure="Odd" not in name)
                 purity(report, {"check": "C20.variant_load", "leg": leg}, f"load {name} <- {codec.show(dumped, 60)} [{mode_name(mode)}]", loader,
                        lambda dumped=dumped: copy.deepcopy(dumped), lambda a: set(),
-                       {**base, "key": ("vl", name, repr(value)[:60], mode)})
+                       {**base, "key": ("vl", name, repr(value)[:60], mode)}, check_closure="Odd" not in name)
 
 
 def _mutable_parts(exc, depth=0, out=None):
